@@ -222,6 +222,10 @@ def one_case(run, fname, pkind, opts, fault, rng):
             ref = None
     subs = list(module.modules())
     target = subs[rng.randrange(0, len(subs))] if fault in ("forward_hook", "pre_hook") else None
+    # the parameter tensordict as an unreferenced temporary (the swap only keeps a weak reference to it)
+    temp = pkind not in ("same", "as_module") and rng.random() < 0.4
+    differ = shared_subtrees_differ(module, params)
+    run.count("zoo.params_temporary", temp)
     handle = None
     out = None
     swap_td = None
@@ -230,6 +234,11 @@ def one_case(run, fname, pkind, opts, fault, rng):
     try:
         with time_limit(30):
             swap_td = params.to_module(module, **opts)
+            if temp:
+                del params
+                if swap_td._last_op[1][2]() is not None:
+                    import gc
+                    gc.collect()
             with swap_td:
                 entered = True
                 if fault == "before":
@@ -289,7 +298,7 @@ def one_case(run, fname, pkind, opts, fault, rng):
         same = ref.keys() == out.keys() and all(torch.equal(ref[k], out[k]) for k in ref)
         if same:
             run.oracle_ok("zoo_output")
-        elif shared_subtrees_differ(module, params):
+        elif differ:
             run.oracle_fail("functional", case, "output inside the block differs from functional_call on a copy (shared submodule, different sub-tensordicts)",
                             "functional:shared-subtrees-differ")
         else:
